@@ -39,7 +39,7 @@ NAME_SCHEMES = ("plain", "case_twins", "prefixes", "spaces", "config", "case_twi
 
 def part_names(scheme, n):
     if scheme in ("case_twins", "case_twins_config"):     # 'a', 'A', 'b', 'B', ... distinct, equal up to letter case
-        return [("abcdefgh"[k // 2]).upper() if k % 2 else "abcdefgh"[k // 2] for k in range(n)]
+        return [("abcdefghijklmnop"[k // 2]).upper() if k % 2 else "abcdefghijklmnop"[k // 2] for k in range(n)]
     if scheme == "prefixes":                               # every name a prefix of the next
         return ["n" + "1" * (k + 1) for k in range(n)]
     if scheme == "spaces":                                 # inner whitespace and punctuation
@@ -115,11 +115,15 @@ def run(tier, seed):
                     fed_small.append(c["edges"])
     n_exh = len(cases)
     # sampled larger trees (random labelled trees via random parent of a random permutation)
-    for n, cnt in ((max_full + 1, 3000 if tier == "quick" else 40000), (max_full + 2, 500 if tier == "quick" else 10000)):
-        for _ in range(cnt):
-            order = list(range(n))
+    # ... and skeletons of realistic size (10-24 nodes: two-digit node numbers), bushy, or long chains with a few branches
+    for n, cnt in ((max_full + 1, 3000 if tier == "quick" else 40000), (max_full + 2, 500 if tier == "quick" else 10000),
+                   (0, 150 if tier == "quick" else 3000)):
+        for k in range(cnt):
+            big = n == 0
+            nn = rng.randint(10, 24) if big else n
+            order = list(range(nn))
             rng.shuffle(order)
-            t = [(order[rng.randrange(i)], order[i]) for i in range(1, n)]
+            t = [(order[(i - 1) if (big and k % 2 and rng.random() < 0.8) else rng.randrange(i)], order[i]) for i in range(1, nn)]
             rng.shuffle(t)
             c = observe(t)
             c["id"] = len(cases)
